@@ -343,6 +343,9 @@ def c09(run):
     bcases = gen_frame_cases(run, "bytes")
     t = run.record("frame", "bytecases", cases=bcases)
     run.validate("frame", t, "Trace_frame", label="(R) frame byte shapes through decode + decrypt-then-decode + validate", chunk=8000)
+    t = run.record("total", "small")
+    run.validate("total", t, "Trace_total", label="(V) 44 entry points x EVERY input of length 0..2 over a 28-symbol punctuation/hex alphabet (+ quoted and 3-symbol hex-like forms)", chunk=20000)
+    run.exhaustive.append("all inputs of length <= 2 over the 28-symbol alphabet, per decoder entry point")
     t = run.record("total", "random", n=T(run, 60000, 6000000))
     run.validate("total", t, "Trace_total", label="(V) %d entry points x random / textual / mutated inputs of 0..512 bytes" % 44, chunk=100000)
     t = run.record("frame", "bytes", n=T(run, 15000, 800000))
